@@ -286,8 +286,8 @@ def run(case):
     stats = {}
     sig = ''
     choices = None
-    with warnings.catch_warnings():
-        warnings.simplefilter('ignore')
+    with warnings.catch_warnings(record=True):
+        warnings.simplefilter('always')    # recorded, not printed; never 'ignore': dependencies inspect warnings
         if mode == 'construct':
             ctx = W.set_ctx(W.Ctx())
             ds = W.build(desc)
